@@ -575,9 +575,14 @@ func (w *world) doOp(op *Op) *reply {
 		})
 	case "remove":
 		c, ok := w.rt.ctrs[op.ID]
-		if !ok || c.state != "stopped" {
+		// a container that was created but never started is removed without
+		// a StopContainer event (the runtime only stops what runs)
+		if !ok || (c.state != "stopped" && !(c.state == "created" && op.Ev == "never-started")) {
 			rep.skipped = true
 			return rep
+		}
+		if c.state == "created" {
+			w.res.Probe("never-started-container-removed-without-stop")
 		}
 		c.state = "removed"
 		rep.target = op.ID
